@@ -502,6 +502,37 @@ func (w *walker) valueTaint(e ast.Expr) (map[string]bool, Held) {
 	return out, held
 }
 
+// taints are joined at control-flow merges: a variable (field) is tainted after the merge if it is
+// tainted on any path that reaches it
+func (w *walker) cloneTaints() map[*types.Var]*taint {
+	r := map[*types.Var]*taint{}
+	for v, t := range w.tainted {
+		c := &taint{fields: map[string]bool{}, heldAtCopy: t.heldAtCopy}
+		for f := range t.fields {
+			c.fields[f] = true
+		}
+		r[v] = c
+	}
+	return r
+}
+
+func joinTaints(a, b map[*types.Var]*taint) map[*types.Var]*taint {
+	r := map[*types.Var]*taint{}
+	for _, m := range []map[*types.Var]*taint{a, b} {
+		for v, t := range m {
+			c := r[v]
+			if c == nil {
+				c = &taint{fields: map[string]bool{}, heldAtCopy: t.heldAtCopy}
+				r[v] = c
+			}
+			for f := range t.fields {
+				c.fields[f] = true
+			}
+		}
+	}
+	return r
+}
+
 func (w *walker) recordAlias(fields map[string]bool, local Held, pos token.Pos) {
 	var fs []string
 	for f := range fields {
@@ -1451,14 +1482,18 @@ func (w *walker) stmt(st ast.Stmt) bool {
 		w.publishBareUses(x.Cond)
 		w.expr(x.Cond)
 		h0 := w.held.clone()
+		a0 := w.cloneTaints()
 		t1 := w.stmts(x.Body.List)
 		h1 := w.held
+		a1 := w.tainted
 		w.held = h0.clone()
+		w.tainted = a0
 		t2 := false
 		if x.Else != nil {
 			t2 = w.stmt(x.Else)
 		}
 		h2 := w.held
+		a2 := w.tainted
 		switch {
 		case t1 && t2:
 			w.held = h0
@@ -1467,7 +1502,9 @@ func (w *walker) stmt(st ast.Stmt) bool {
 			w.held = h2
 		case t2:
 			w.held = h1
+			w.tainted = a1
 		default:
+			w.tainted = joinTaints(a1, a2)
 			if !w.sameModuloDeferred(h1, h2) {
 				w.s.note(x.Pos(), "branches of if leave different lock sets; continuing with their intersection")
 			}
@@ -1481,7 +1518,9 @@ func (w *walker) stmt(st ast.Stmt) bool {
 			w.expr(x.Cond)
 		}
 		h0 := w.held.clone()
+		a0 := w.cloneTaints()
 		t := w.stmts(x.Body.List)
+		w.tainted = joinTaints(a0, w.tainted) // the body may run zero times
 		if !t {
 			w.stmt(x.Post)
 			if !w.sameModuloDeferred(h0, w.held) {
@@ -1508,7 +1547,9 @@ func (w *walker) stmt(st ast.Stmt) bool {
 			}
 		}
 		h0 := w.held.clone()
+		a0 := w.cloneTaints()
 		t := w.stmts(x.Body.List)
+		w.tainted = joinTaints(a0, w.tainted) // the body may run zero times
 		if !t && !w.sameModuloDeferred(h0, w.held) {
 			w.s.note(x.Pos(), "loop body changes the lock set; continuing with the intersection")
 		}
@@ -1576,10 +1617,13 @@ func hasBreak(b *ast.BlockStmt) bool {
 
 func (w *walker) clauses(body *ast.BlockStmt, pos token.Pos, isSelect bool) bool {
 	h0 := w.held.clone()
+	a0 := w.cloneTaints()
+	aOut := map[*types.Var]*taint{}
 	var outs []Held
 	hasDefault := false
 	for _, cl := range body.List {
 		w.held = h0.clone()
+		w.tainted = joinTaints(a0, nil)
 		var list []ast.Stmt
 		switch c := cl.(type) {
 		case *ast.CaseClause:
@@ -1601,12 +1645,16 @@ func (w *walker) clauses(body *ast.BlockStmt, pos token.Pos, isSelect bool) bool
 		}
 		if !w.stmts(list) {
 			outs = append(outs, w.held)
+			aOut = joinTaints(aOut, w.tainted)
 		}
 	}
 	if !hasDefault && !isSelect {
 		outs = append(outs, h0)
+		aOut = joinTaints(aOut, a0)
 	}
+	w.tainted = aOut
 	if len(outs) == 0 {
+		w.tainted = a0
 		w.held = h0
 		return len(body.List) > 0
 	}
